@@ -141,6 +141,6 @@ def run(chk, ctx):
     for fn in P.f.bodies:
         if "From<lexer::token::TokenKind> for expr::" in fn and not fn.endswith("]"):
             L.need("KINDCONV:" + fn)
-    tkamod.progress(L.tka(), chk)
+    tkamod.progress(L.tka_for_progress(), chk)
     span_rule(chk, P)
     chk.not_decided = ["native stack exhaustion on deep nesting (excluded by the property)", "miette's rendering of in-bounds spans (library)"]
